@@ -18,6 +18,9 @@ Fd(n, v) == F(n, v, "idx", TRUE, FALSE, FALSE)
 Hd(order, o) == [k |-> "headers", stream |-> 1, o |-> o,
                  list |-> [i \in 1..Len(order) |-> Fd(order[i], CASE order[i] = ":method" -> "GET" [] order[i] = ":path" -> "/" [] order[i] = ":scheme" -> "https" [] order[i] = ":authority" -> "example.com" [] OTHER -> "gzip")]
                           \o <<Fd("user-agent", "x"), Fd("accept", "*/*")>>]
+\* a block that refers to what it has itself inserted into the dynamic table: a repeated field (indexed, index 62 and up) and a
+\* second value under a name known only from the dynamic table (literal with a dynamic name index)
+HdDyn(order, o) == [Hd(order, o) EXCEPT !.list = @ \o <<Fd("x-custom", "v1"), Fd("x-custom", "v1"), F("x-custom", "v2", "noidx", TRUE, FALSE, FALSE), Fd("accept", "*/*")>>]
 PingF == [k |-> "ping"]
 DataF == [k |-> "data", stream |-> 1, n |-> 5]
 
@@ -49,6 +52,8 @@ Seqs ==
   \cup {p \o <<PingF>> \o <<s>> \o <<Hd(o, fr)>> \o <<DataF>> : s \in {Firefox}, p \in PrS, o \in Orders, fr \in Framings}
   \cup {<<s>> \o w \o p \o <<Hd(o, Plain)>> : s \in {Chrome, Edge}, w \in {<<>>, <<Wu(0, 239, 1, FALSE)>>}, p \in PrX, o \in {<<":method", ":path", ":authority", ":scheme">>}}
   \cup {p \o <<PingF>> \o <<s>> \o <<Hd(o, fr)>> \o <<DataF>> : s \in {Firefox}, p \in PrX, o \in {<<":method", ":scheme", ":path", ":authority">>}, fr \in {Plain, [Plain EXCEPT !.cuts = <<2>>]}}
+  \cup {<<s>> \o w \o <<HdDyn(o, fr)>> : s \in {Chrome, Firefox}, w \in {<<>>, <<Wu(0, 239, 1, FALSE)>>}, o \in {<<":method", ":path", ":authority", ":scheme">>, <<":method", ":scheme", ":path", ":authority">>},
+                                     fr \in {Plain, [Plain EXCEPT !.cuts = <<2>>], [Plain EXCEPT !.pad = 3]}}                 \* references into the block's own dynamic table
   \cup {<<Hd(<<":method", ":path", ":authority", ":scheme">>, Plain), Firefox, Wu(0, 0, 9, FALSE)>>}                  \* HEADERS before SETTINGS
   \cup {<<Wu(0, 0, 9, FALSE), PingF>>, <<Hd(<<":method", ":path">>, Plain)>>}                                         \* no SETTINGS at all
   \cup {<<s, S_(<<Pm(1, 0, 0)>>), Wu(0, 0, 5, FALSE)>> : s \in {Chrome}}                                             \* second SETTINGS ignored
